@@ -212,7 +212,7 @@ def parse (E : Env) (cls0 : Option (Bytes × Nat)) (uri : Bytes) : R Uri := do
   let u ← setPortBytes u hp.2
   pure { u with path := path, query := query, fragment := fragment }
 
-/-! ### abspath / normalize -/
+/-! ### abspathCore / normalize -/
 
 /-- `re.sub(u'\\/{2,}', u'/', path)` -/
 def collapse : Bytes → Bytes
@@ -222,7 +222,7 @@ def collapse : Bytes → Bytes
 def dot : Bytes := [0x2E]
 def dotdot : Bytes := [0x2E, 0x2E]
 
-/-- one iteration of the loop in `abspath`; the stack is kept reversed (top first). -/
+/-- one iteration of the loop in `abspathCore`; the stack is kept reversed (top first). -/
 def step (st : List Bytes × Bool) (part : Bytes) : List Bytes × Bool :=
   if part == dotdot then (st.1.tail, true)      -- `not unsplit or unsplit.pop() is not None` is always true
   else if part != dot then (part :: st.1, false)
@@ -232,13 +232,18 @@ def abspathSegs (parts : List Bytes) : List Bytes :=
   let (st, dir) := parts.foldl step ([], false)
   if dir then ([] :: st).reverse else st.reverse
 
-/-- `URI.abspath()` on the path text -/
-def abspath (p : Bytes) : Bytes :=
+/-- the segment loop of `URI.abspath()` on the path text (before the root is restored) -/
+def abspathCore (p : Bytes) : Bytes :=
   let q := collapse p
   if q.isEmpty then p
   else
     let r := joinWith [0x2F] (abspathSegs (splitOn1 0x2F q))
     if r.isEmpty then [0x2F] else r
+
+/-- `URI.abspath()`: the segment loop, then the root of an absolute path put back if `..` had removed it (F60 repair) -/
+def abspath (p : Bytes) : Bytes :=
+  let q := abspathCore p
+  if startsWith p [0x2F] && !startsWith q [0x2F] then 0x2F :: q else q
 
 /-- `URI.normalize()`.  (`if not self.port: self.port = self.PORT` leaves `_port` falsy when both are.) -/
 def normalize (E : Env) (u : Uri) : Uri :=
